@@ -47,12 +47,12 @@ pub fn run(rep: &mut Report) {
     rep.generated("Q32E2 round trip of generated posits", tier.pick(300_000, 3_000_000), || gen::bits(32), |&a, l| roundtrip::<Q32E2>(a, l));
     match tier {
         Tier::Quick => {
-            let off = rep.cfg.seed % 64;
-            rep.lattice("Q32E2 round trip of every 64th posit pattern", 1 << 26, move |i, l| roundtrip::<Q32E2>(i * 64 + off, l));
+            let off = rep.cfg.seed % 16;
+            rep.lattice("Q32E2 round trip of every 16th posit pattern", 1 << 28, move |i, l| roundtrip::<Q32E2>(i * 16 + off, l));
         }
         Tier::Thorough => rep.exhaustive("Q32E2 round trip of all 2^32 posits", 1 << 32, |i, l| roundtrip::<Q32E2>(i, l)),
     }
-    let h = tier.pick(50_000, 1_200_000);
+    let h = tier.pick(150_000, 1_200_000);
     hist::<Q8E0>(rep, h);
     hist::<Q16E1>(rep, h);
     hist::<Q32E2>(rep, h);
